@@ -94,7 +94,7 @@ Section Rules.
   Definition op_sane (o : op) : Prop := match o with OSetPrice _ (Some p) => 0 <= p | _ => True end.
 
   Lemma step_prices_ok st o st' :
-    Good cfg st -> kf_C08_2 st o = false -> PricesOk (prices st) -> op_sane o -> step cfg st o = Ok st' -> PricesOk (prices st').
+    Good cfg st -> kf_books st o = false -> PricesOk (prices st) -> op_sane o -> step cfg st o = Ok st' -> PricesOk (prices st').
   Proof.
     intros HG Hkf HP Hs H. destruct (is_setprice o) eqn:Eo.
     - destruct o; try discriminate. cbn [step] in H. injection H as <-. cbn [prices]. intros a q.
